@@ -128,11 +128,15 @@ fn score_u8_edge_body<const R: usize, const M: usize>(arm: lightmotif::pli::disp
     crate::witness!(last.as_index() == 0, "lowest symbol index");
 }
 
-//@ C06 quick 800 AVX2 u8 shuffle scoring + max/argmax via dispatcher, DNA, R=2, M=3, exactly-sized sequence buffer
+//@ C06 quick 800 AVX2 u8 shuffle scoring + max/argmax via dispatcher, DNA, R=2, M=2, exactly-sized sequence buffer
+harness!(avx2, 40, c06_avx2_score_u8_edge_r2_m2, score_u8_edge_body::<2, 2>(lightmotif::pli::dispatch::Dispatch::Avx2));
+//@ C06 thorough 3600 AVX2 u8 shuffle scoring + max/argmax via dispatcher, DNA, R=2, M=3, exactly-sized sequence buffer
 harness!(avx2, 40, c06_avx2_score_u8_edge_r2_m3, score_u8_edge_body::<2, 3>(lightmotif::pli::dispatch::Dispatch::Avx2));
 //@ C06 quick 800 generic u8 scoring + max/argmax via dispatcher (SSE2 arm), DNA, R=1, M=2, exactly-sized sequence buffer
 harness!(avx2, 40, c06_generic_score_u8_edge_r1_m2, score_u8_edge_body::<1, 2>(lightmotif::pli::dispatch::Dispatch::Sse2));
-//@ C06 quick 800 AVX2 permute scoring + max/argmax, DNA, R=2, M=3, exactly M-1 look-ahead rows, last row range
+//@ C06 quick 800 AVX2 permute scoring + max/argmax, DNA, R=2, M=2, exactly M-1 look-ahead rows, last row range
+harness!(avx2, 40, c06_avx2_score_edge_dna_r2_m2, score_edge_body::<Dna, 2, 2>());
+//@ C06 thorough 3600 AVX2 permute scoring + max/argmax, DNA, R=2, M=3, exactly M-1 look-ahead rows, last row range
 harness!(avx2, 40, c06_avx2_score_edge_dna_r2_m3, score_edge_body::<Dna, 2, 3>());
 //@ C06 quick 800 AVX2 gather scoring + max/argmax, protein, R=1, M=2, symbol index 20 everywhere
 harness!(avx2, 40, c06_avx2_score_edge_protein_r1_m2, score_edge_body::<Protein, 1, 2>());
